@@ -172,14 +172,10 @@ class ProductState:
             shape.append(1)
             ps = self.state.reshape(shape)
             for idx, state in enumerate(states):
-                # Constructing the einsum str
-                einsum = ESC.measure_vector(remaining_states, [state])
-
-                # Project the state with einsum string
-                projected_state = jnp.einsum(einsum, ps)
-
-                # Outcome Probabilities
-                probabilities = jnp.abs(projected_state.flatten()) ** 2
+                # Outcome Probabilities: squared amplitudes summed over all other states
+                axis = remaining_states.index(state)
+                other_axes = tuple(i for i in range(ps.ndim) if i != axis)
+                probabilities = jnp.sum(jnp.abs(ps) ** 2, axis=other_axes)
                 probabilities /= jnp.sum(probabilities)
 
                 # Decide on output
@@ -228,10 +224,8 @@ class ProductState:
             shape = [so.dimensions for so in self.state_objs] * 2
             ps = self.state.reshape(shape)
             for idx, state in enumerate(states):
-                # Generate einsum string
-                einsum = ESC.measure_matrix(remaining_states, [state])
-
-                # Project the state with einsum
+                # Reduced density matrix of the measured state (all others traced out)
+                einsum = ESC.trace_out_matrix(remaining_states, [state])
                 projected_state = jnp.einsum(einsum, ps)
 
                 # Outcome Probabilities
